@@ -15,6 +15,17 @@ extern const struct CxMem hx_def;
 #include "hcommon.h"
 #include "trkcx.h"
 
+/* watchdog: a history that does not finish (a cycle built by a broken library makes talloc loop for
+ * ever) is a result, not a reason to wait */
+#define CASE_SECONDS 20
+static void on_alarm(int sig)
+{
+	static const char msg[] = "HANG\n";
+	fflush(stdout);
+	if (write(1, msg, sizeof(msg) - 1) < 0) _exit(4);
+	_exit(3);
+}
+
 /* ------------------------------------------------------------------ tracking allocator */
 #define MAXREG 4096
 struct Reg { void *p; size_t len; int cx; };
@@ -514,17 +525,6 @@ static void do_line(char *line)
 		return;
 	}
 	BAD;
-}
-
-/* watchdog: a history that does not finish (a cycle built by a broken library makes talloc loop for
- * ever) is a result, not a reason to wait */
-#define CASE_SECONDS 20
-static void on_alarm(int sig)
-{
-	static const char msg[] = "HANG\n";
-	fflush(stdout);
-	if (write(1, msg, sizeof(msg) - 1) < 0) _exit(4);
-	_exit(3);
 }
 
 static void on_abort(const char *reason)
